@@ -1,5 +1,5 @@
 import Driver.Util
-import MpcVerif.Model.Mesh
+import MpcVerif.Model.MeshData
 
 /-!
 Trace validation for C19.  Op line: `c19 <n> <m> <ev,ev,...> [strict]` where the
@@ -17,12 +17,22 @@ setup (in the order of a process-wide log):
   g.i.c.a    peer i got the info: c other peers, a = numAccept
   d.i.j.k    party i dials j for connection id k
   r.p        Connect of p returned nil
+  S.p.q.k.len      party p (Connect returned) starts sending the next len bytes of its stream on
+                   Peers[q].Conns[k]; byte at stream offset o = pay p q k o (the harness uses the same function)
+  R.p.q.k.len.sum  party p has received len bytes from Peers[q].Conns[k], checksum sum
+  T.p.q.k.len.sum  as R, and afterwards nothing more arrived on that connection although the session was
+                   given time (appended by the harness at the end of the trace)
 
 Result: `run=ok end=<final|deadlock|live|error>` or `run=bad@<index>:<event>:<why>`.
 * run=ok: every event is enabled in the model state reached so far and its
   observed arguments agree with the model (the trace is a run of `Mesh.step`
   with the events of the code as it is), and at every `r.p` party p is done
   with a complete table.
+* data tokens are replayed on the data layer (`Model/MeshData.lean`): S must be enabled (p done, slot
+  set); at R / T the model must hold at least len bytes for that slot (ReadBuf + socket) and their
+  checksum must be the observed one; at T the model must hold nothing more (otherwise the real
+  connection withheld bytes that, by the model, were delivered to it).  A session with data tokens
+  reports ` data=<bytes received>/<bytes sent>` summed over all slots.
 * end: `final` = all parties done, tables complete, nothing in flight;
   `error` = the model took (or can only continue by) an error path;
   `deadlock` = no event enabled; `live` = the run could continue.
@@ -35,6 +45,8 @@ inductive Tok where
   | ev (es : List Ev) (chk : Cfg → State → Option String)
   | ret (p : Nat)
   | skip
+  | snd (p q k len : Nat)
+  | rcv (p q k len sum : Nat) (last : Bool)
 
 def nats (s : String) : Option (List Nat) :=
   ((s.splitOn ".").drop 1).mapM String.toNat?
@@ -69,31 +81,75 @@ def parseTok (t : String) : Option Tok :=
       | .run k' (j' :: _) => if k' ≠ k then some "dial-k" else if j' ≠ j then some "dial-peer" else none
       | _ => some "dial-phase")
   | some 'r', some [p] => some (.ret p)
+  | some 'S', some [p, q, k, len] => some (.snd p q k len)
+  | some 'R', some [p, q, k, len, sum] => some (.rcv p q k len sum false)
+  | some 'T', some [p, q, k, len, sum] => some (.rcv p q k len sum true)
   | _, _ => none
 
 structure Acc where
-  s : State
+  s : DState
   err : Option String := none
   idx : Nat := 0
 
+/-- Payload byte at offset `off` of the stream party p sends on its slot (q, k)
+(harness/cmd/c19/data.go `payByte`). -/
+def pay (p q k off : Nat) : Nat :=
+  (17 + 31 * p + 57 * q + 91 * k + 7 * off + 13 * (off / 256)) % 251
+
+/-- Checksum of a byte sequence (harness/cmd/c19/data.go `cksum`). -/
+def cksum (l : List Nat) : Nat :=
+  let (a, b) := l.foldl (fun (ab : Nat × Nat) x => let a := (ab.1 + x) % 65521; (a, (ab.2 + a) % 65521)) (1, 0)
+  b * 65536 + a
+
+/-- Setup events on the data layer; the read of a hello takes everything the socket holds. -/
+def runEvs (c : Cfg) (s : DState) : List Ev → Option DState
+  | [] => some s
+  | e :: es => (dstep c s (.ev e (2 ^ 62))).bind fun s' => runEvs c s' es
+
 /-- Replay tokens on the model. -/
-def replay (c : Cfg) (toks : List (String × Tok)) (s0 : State) : Acc :=
+def replay (c : Cfg) (toks : List (String × Tok)) (s0 : DState) : Acc :=
   toks.foldl (init := { s := s0 }) fun a (name, t) =>
-    if a.err.isSome || a.s.bad then a else
+    if a.err.isSome || a.s.base.bad then a else
     let a := { a with idx := a.idx + 1 }
+    let bad (why : String) : Acc := { a with err := some s!"{a.idx - 1}:{name}:{why}" }
     match t with
     | .skip => a
     | .ret p =>
-      if a.s.phase p != .done then { a with err := some s!"{a.idx - 1}:{name}:not-done" }
-      else if !tableComplete c a.s p then { a with err := some s!"{a.idx - 1}:{name}:table" }
+      if a.s.base.phase p != .done then bad "not-done"
+      else if !tableComplete c a.s.base p then bad "table"
       else a
     | .ev es chk =>
-      match chk c a.s with
-      | some why => { a with err := some s!"{a.idx - 1}:{name}:{why}" }
+      match chk c a.s.base with
+      | some why => bad why
       | none =>
-        match run c a.s es with
-        | none => { a with err := some s!"{a.idx - 1}:{name}:not-enabled" }
+        match runEvs c a.s es with
+        | none => bad "not-enabled"
         | some s' => { a with s := s' }
+    | .snd p q k len =>
+      let off := (a.s.out p q k).length
+      match dstep c a.s (.send p q k ((List.range len).map fun i => pay p q k (off + i))) with
+      | none => bad "send-not-enabled"
+      | some s' => { a with s := s' }
+    | .rcv p q k len sum last =>
+      match a.s.base.conn p q k with
+      | none => bad "recv-no-conn"
+      | some cn =>
+        let avail := a.s.buf cn p ++ a.s.sock cn p
+        if avail.length < len then bad s!"recv-more-than-sent:{avail.length}"
+        else if cksum (avail.take len) != sum then bad "recv-bytes"
+        else
+          match dstep c a.s (.recv p q k (a.s.sock cn p).length len) with
+          | none => bad "recv-not-enabled"
+          | some s' =>
+            if last && len < avail.length then bad s!"bytes-withheld:{avail.length - len}"
+            else { a with s := s' }
+
+/-- Bytes received / bytes sent, summed over all slots. -/
+def dataSummary (c : Cfg) (s : DState) : String :=
+  let tot (f : Nat → Nat → Nat → List Nat) : Nat :=
+    (List.range c.n).foldl (fun acc p => (List.range c.n).foldl (fun acc q =>
+      (List.range c.m).foldl (fun acc k => acc + (f p q k).length) acc) acc) 0
+  s!"{tot s.inp}/{tot s.out}"
 
 def isFinal (c : Cfg) (s : State) : Bool :=
   allDone c s && quiet c s && (List.range c.n).all (tableComplete c s)
@@ -107,7 +163,7 @@ def endOf (c : Cfg) (s : State) (f : Ev → Bool) : String :=
     else if en.any (fun e => match step c s e with | some s' => s'.bad | none => false) then "error"
     else "live"
 
-def handleCore (n m tr : String) : String :=
+def handleCore (n m tr : String) (data : Bool := false) : String :=
   match n.toNat?, m.toNat? with
   | some n, some m =>
     let c : Cfg := ⟨n, m⟩
@@ -115,18 +171,23 @@ def handleCore (n m tr : String) : String :=
     match names.mapM (fun t => (parseTok t).map fun x => (t, x)) with
     | none => "bad-op"
     | some toks =>
-      let a := replay c toks (init c)
+      let a := replay c toks (dinit c)
       match a.err with
       | some e => s!"run=bad@{e}"
-      | none => s!"run=ok end={endOf c a.s Ev.real}"
+      | none =>
+        let d := if data then s!" data={dataSummary c a.s}" else ""
+        s!"run=ok end={endOf c a.s.base Ev.real}{d}"
   | _, _ => "bad-op"
 
 /-- `c19 <n> <m> <trace>`: a recorded session; a trailing `strict` (forced
-schedule replays) is accepted and changes nothing. -/
+schedule replays) is accepted and changes nothing; a trailing `data` (session
+with a data phase overlapping the setup) adds the ` data=` summary. -/
 def handle (args : List String) : String :=
   match args with
   | [n, m, tr] => handleCore n m tr
   | [n, m, tr, "strict"] => handleCore n m tr
+  | [n, m, tr, "data"] => handleCore n m tr true
+  | [n, m, tr, "strict", "data"] => handleCore n m tr true
   | _ => "bad-op"
 
 end Drv.C19
